@@ -216,6 +216,12 @@ pub fn state_of(i: usize) -> Q {
             if at2 != 0 {
                 return Q::At(at2);
             }
+            // It is parked on a live block (it will use it when it wakes).  If the kernel has
+            // already cleared the word the wake-up is on its way: not a stable state.
+            let w = unsafe { (*(a as *const AtomicU32)).load(Ordering::SeqCst) };
+            if w != 1 {
+                return Q::Running;
+            }
             return Q::Parked;
         }
         Q::Running
